@@ -322,11 +322,20 @@ Definition run_total (input : val) : val :=
   | _ => VL [VT (tout_tag t); VT (lim_of_tag expect (tout_tag t))]
   end.
 
-(* which entries run cid.CidFromReader on the stream / read index buckets (budget terms) *)
-Definition entry_uses_cfr (e : N) : bool :=
-  negb ((e =? entry_br) || (e =? entry_carv1) || (e =? entry_version) || (e =? entry_v2hdr) || (e =? entry_idx)).
-Definition entry_uses_idx (e : N) : bool :=
-  (e =? entry_idx) || (e =? 9) || (e =? 10) || (e =? 11) || (e =? 12) || (e =? 13) || (e =? 17).
+(* what each entry point (id mod 100) reads under which limit:
+   header limit   : every CAR entry point; Resume's version probe runs under the DEFAULT limit whatever the
+                    caller configured (known finding resume-first-header-over-limit), so its budget has both;
+   section limit  : the readers that buffer a section (Next, the internal and root readers, the stores' Get);
+   go-cid constant: everything that runs cid.CidFromReader (on the stream, or for the root module on the buffer);
+   index chunk    : everything that may decode an index. *)
+Definition in_list (e : N) (l : list N) : bool := existsb (N.eqb e) l.
+Definition entry_hlim (e maxh : N) : N :=
+  if in_list e [5; 6; 17] then 0
+  else if in_list e [7; 16] then maxh + default_maxh
+  else maxh.
+Definition entry_slim (e maxs : N) : N := if in_list e [0; 1; 2; 3; 8; 11; 12] then maxs else 0.
+Definition entry_uses_cfr (e : N) : bool := in_list e [2; 3; 7; 8; 10; 11; 12; 13; 16].
+Definition entry_uses_idx (e : N) : bool := in_list e [6; 9; 10; 11; 12; 17].
 
 (* class of a failing case, for known findings: a limit above what the Go runtime can allocate at
    all is a class of its own *)
@@ -338,6 +347,12 @@ Definition payload_stream (input : val) : bytes :=
 Definition case_class (input : val) : string :=
   let o := v_ropts_t (vnth 1 input) in
   if (go_max_alloc <? o_maxh o) || (go_max_alloc <? o_maxs o) then "limit-above-runtime-max"
+  else if in_list (vN (vnth 0 input) mod 100) [7; 16] &&
+          (match read_uv (vB (vnth 2 input)) with
+           | VOk l _ _ => (o_maxh o <? l) && (l <=? default_maxh)
+           | _ => false
+           end)
+  then "resume-first-header-over-limit"
   else if (let s := payload_stream input in has_short_section (S (length s)) s)
   then "section-shorter-than-its-cid"
   else "entry-" ++ (match vN (vnth 0 input) mod 100 with
@@ -359,7 +374,8 @@ Definition prop_total (input obs : val) : val :=
   if is_tagv outcome "PANIC" then failv "panic" input
   else if is_tagv outcome "TIMEOUT" then failv "timeout" input
   else if is_tagv outcome "KILLED" then failv "killed" input
-  else if alloc_budget (o_maxh o) (o_maxs o) (entry_uses_cfr e) (entry_uses_idx e) (blen file) <? meas
+  else if alloc_budget (entry_hlim e (o_maxh o)) (entry_slim e (o_maxs o)) (entry_uses_cfr e) (entry_uses_idx e)
+                       (blen file) <? meas
   then failv "alloc-bound" input
   else if is_tagv (vnth 0 expect) "exact" && negb (is_tagv lim "-")
   then failv "limit-exact-rejected" input
